@@ -23,9 +23,10 @@ import pairedextract
 import plangen as G
 
 MANIFEST = {
-    "text": "FULL for run_wrapper, stage_wrapper, subs_wrapper, suspend_wrapper; lazily_stage_wrapper FULL under the stated "
-    "hypothesis on stage responses (open finding without it); PARTIAL for monitor_during_wrapper / fly_during_wrapper "
-    "(one splice, undisturbed: all responses are sends).  Theorems (Props/C23.lean) give, for ANY wrapped plan behaviour and "
+    "text": "FULL for run_wrapper, stage_wrapper, subs_wrapper, suspend_wrapper, lazily_stage_wrapper (its 'each device unstaged once' under "
+    "the stated well-formedness of stage answers); PARTIAL for monitor_during_wrapper / fly_during_wrapper (what each of the "
+    "two nested plan_mutators does at ONE open_run / close_run whose inserted messages are answered; whole traces not proved, "
+    "full statement kept as C23_during_full).  Theorems (Props/C23.lean) give, for ANY wrapped plan behaviour and "
     "ANY script of responses / thrown exceptions (no GeneratorExit thrown in the middle; close() at the end allowed), the exact "
     "message trace of each wrapper model as a function of the wrapped plan's own trace: run_wrapper = open_run, the plan, then "
     "exactly one close_run whose status is the exception's exit_status (RequestStop/RequestAbort), 'fail'+reason (other "
@@ -51,6 +52,8 @@ ASSUMPTIONS = [
     "`yield from` a @plan-decorated stub (bluesky.utils.Plan) behaves as `yield from` the generator it wraps",
     "responses to the wrappers' own `stage` messages are None or lists of devices (lazily_stage_wrapper) / anything or a Status (stage_all)",
     "no GeneratorExit is thrown into a wrapper in the middle of a script (close() at the end is covered); StopIteration is never thrown",
+    "plan_mutator-based wrappers (lazily_stage, *_during): statements are about message OBJECTS yielded for the first time -- plan_mutator passes an object it has seen (msgs_seen keyed by id) through unprocessed (C21/F9 semantics)",
+    "lazily_stage_wrapper 'unstaged exactly once': a `stage root` answer is None or a duplicate-free list containing the root and only devices of its tree",
 ]
 TRUSTED = ["harness/pairedextract.py", "harness/genextract.py", "harness/plangen.py (AST -> Python source)"]
 
@@ -127,6 +130,8 @@ class World:
         self.funcs = {}
         self.susps = {}
         self.step = 0
+        self.reyielded = set()
+        self.reyielded_uids = set()
 
     def dev(self, n):
         if n not in self.devs:
@@ -150,8 +155,12 @@ class World:
         pool = {}
 
         def shared(k):
+            # `yield SHARED(k)`: the same message object every time; from the second evaluation on it is a re-yield
             if k not in pool:
                 pool[k] = self.make("null", k)
+            else:
+                self.reyielded.add(id(pool[k]))
+                self.reyielded_uids.add(pool[k].kwargs.get("uid"))
             return pool[k]
 
         ns = {"Msg": self.make, "SHARED": shared, "RunEngineControlException": RunEngineControlException}
@@ -275,7 +284,7 @@ def drive(case, script, instrument=False):
             trace.append(canon_msg(m, world))
             if id(m) in world.plan_ids:
                 # a message OBJECT the plan yields again is passed through by plan_mutator unprocessed
-                origins.append("plan-again" if id(m) in yielded else "plan")
+                origins.append("plan-again" if (id(m) in yielded or id(m) in world.reyielded) else "plan")
                 yielded.add(id(m))
             else:
                 origins.append("wrapper")
